@@ -235,6 +235,16 @@ def default_models():
         return SArr(n, fn)
     reg('numpy.divide', _divide)
 
+    def _diff(I, a, n=1, axis=-1, **kw):
+        """np.diff(a): r[k] = a[k+1] - a[k], one element fewer (none for an empty or one-element array)."""
+        if n != 1 or kw:
+            raise Unsupported('np.diff with n/prepend/append')
+        a = _array(I, a) if not isinstance(a, SArr) else a
+        ln = to_z3(a.length) if not isinstance(a.length, int) else a.length
+        m = max(ln - 1, 0) if isinstance(ln, int) else z3.If(ln >= 1, ln - 1, 0)
+        return SArr(m, lambda k: I.binop('Sub', a.at(k + 1), a.at(k)))
+    reg('numpy.diff', _diff)
+
     def _cumtrapz(I, y, x=None, dx=1, axis=-1, initial=None):
         """scipy.integrate.cumulative_trapezoid(y, dx=dx): r[j] = sum_{i<=j} dx*(y[i]+y[i+1])/2, length n-1 (assumed
         contract).  For a symbolic length the result is a prefix function C with C(j+1) = C(j) + dx*(y[j+1]+y[j+2])/2,
